@@ -1,7 +1,7 @@
 (* C09: the theorems in the form Properties.v states them: for every element type and every
    comparator that is a strict weak order. *)
-From Tetl Require Import Lib.Base C06a.Model C09.Ops C09.Model C09.Spec C09.ProofsCore C09.ProofsOps C09.ProofsRun
-  C09.ProofsExtra.
+From Tetl Require Import Lib.Base C06a.Model C09.Ops C09.Model C09.Spec C09.Instances C09.ProofsCore C09.ProofsOps
+  C09.ProofsRun C09.ProofsExtra.
 From Coq Require Import Sorting.Sorted Sorting.Permutation.
 
 Section Main.
@@ -60,6 +60,19 @@ Lemma main_flat_multiset : forall input,
   exists l', fms_construct lt input = Ok l' /\ is_multiset_of lt input l'.
 Proof. exact (flat_multiset_sorted_perm lt Hi Ht Hc). Qed.
 
+(* one call from ANY pair of sets that satisfies the invariant (reachable or not) *)
+Lemma main_step_total : forall k cap s o, inv lt cap s -> op_ok lt k o ->
+  exists s' r', step lt k cap s o = Ok (s', r') /\ inv lt cap s' /\
+    (s_step lt k cap s o = None -> has_member k o = true -> s' = s /\ r' = OContract) /\
+    (forall s2 so, s_step lt k cap s o = Some (s2, so) -> s' = s2 /\ r' = present k so).
+Proof.
+  intros k cap s o Hinv Hok.
+  destruct (step_total lt Hi Ht Hc k cap s o Hinv Hok) as (s' & r' & E & Hi' & Hn).
+  exists s', r'. split; [exact E|]. split; [exact Hi'|]. split; [exact Hn|].
+  intros s2 so Hs. destruct (step_refines lt Hi Ht Hc k cap s o s2 so Hinv Hs) as [E2 _].
+  rewrite E in E2. inversion E2; subst. split; reflexivity.
+Qed.
+
 Lemma main_refines_unbounded_std : forall k cap ops s2 tr2,
   u_run lt k init ops = Some (s2, tr2) -> Forall (within cap) ops ->
   Forall (fun e => length (snd e) <= cap) tr2 ->
@@ -104,4 +117,44 @@ Proof.
   - intros x. apply Z.ltb_irrefl.
   - intros x y z H1 H2. apply Z.ltb_lt in H1, H2. apply Z.ltb_lt. lia.
   - intros x y z H1 H2 H3 H4. apply Z.ltb_ge in H1, H2, H3, H4. apply Z.ltb_ge. lia.
+Qed.
+
+(* the comparators and heterogeneous keys the correspondence harness instantiates satisfy the
+   hypotheses of the theorems *)
+Lemma cmp_less_strict_weak : strict_weak cmp_less.
+Proof. exact ltb_strict_weak. Qed.
+
+Lemma cmp_greater_strict_weak : strict_weak cmp_greater.
+Proof.
+  unfold cmp_greater. repeat split.
+  - intros x. apply Z.ltb_irrefl.
+  - intros x y z H1 H2. apply Z.ltb_lt in H1, H2. apply Z.ltb_lt. lia.
+  - intros x y z H1 H2 H3 H4. apply Z.ltb_ge in H1, H2, H3, H4. apply Z.ltb_ge. lia.
+Qed.
+
+Lemma cmp_half_strict_weak : strict_weak cmp_half.
+Proof. exact half_strict_weak. Qed.
+
+Lemma point_cut_ok v : cut_ok cmp_less (point_cut v).
+Proof.
+  unfold cut_ok, cmp_less, point_cut. cbn [below above]. repeat split.
+  - intros a b H1 H2. apply Z.ltb_lt in H1, H2. apply Z.ltb_lt. lia.
+  - intros a b H1 H2. apply Z.ltb_lt in H1, H2. apply Z.ltb_lt. lia.
+  - intros a H. apply Z.ltb_lt in H. apply Z.ltb_ge. lia.
+Qed.
+
+Lemma band_cut_ok lo hi : lo <= hi -> cut_ok cmp_less (band_cut lo hi).
+Proof.
+  intros Hlh. unfold cut_ok, cmp_less, band_cut. cbn [below above]. repeat split.
+  - intros a b H1 H2. apply Z.ltb_lt in H1, H2. apply Z.ltb_lt. lia.
+  - intros a b H1 H2. apply Z.ltb_lt in H1, H2. apply Z.ltb_lt. lia.
+  - intros a H. apply Z.ltb_lt in H. apply Z.ltb_ge. lia.
+Qed.
+
+Lemma instances_ok :
+  strict_weak cmp_less /\ strict_weak cmp_greater /\ strict_weak cmp_half
+  /\ (forall v, cut_ok cmp_less (point_cut v)) /\ (forall lo hi, lo <= hi -> cut_ok cmp_less (band_cut lo hi)).
+Proof.
+  split; [exact cmp_less_strict_weak|]. split; [exact cmp_greater_strict_weak|]. split; [exact cmp_half_strict_weak|].
+  split; [exact point_cut_ok|exact band_cut_ok].
 Qed.
